@@ -410,6 +410,7 @@ struct CopyMatrix : Family {
 		p.setenv("short_read", r.chance(1, 2) ? 0 : SR[big ? 3 + r.below(3) : r.below(6)]);
 		p.setenv("short_write", r.chance(1, 2) ? 0 : SR[big ? 3 + r.below(3) : r.below(6)]);
 		p.setenv("eintr", r.chance(2, 3) ? 0 : r.range(2, 5));
+		p.setenv("reuse_writer", r.chance(1, 3) ? 1 : 0);
 		Line src = mkline("world", "src");
 		src.set("cseed", hex64(r.next())).set("len", len);
 		p.world.push_back(src);
@@ -438,6 +439,12 @@ struct CopyMatrix : Family {
 		memcpy(block.get(), whole.data(), whole.size());
 		if (b == "file" || b == "fileslice") disk::put("src.bin", whole);
 		bool any = false;
+		// reuse_writer: all copies of the run go into ONE long-lived growing writer (chunk sizes differ between copies);
+		// its content must be the concatenation of what each copy had to transfer
+		bool reuse = plan.envu("reuse_writer", 0) != 0;
+		std::unique_ptr<Stream::DynamicMemoryWriter> shared;
+		std::vector<uint8_t> sharedWant;
+		if (reuse) { Armed arm; shared = std::make_unique<Stream::DynamicMemoryWriter>(); }
 		for (size_t i = 0; i < plan.ops.size(); ++i) {
 			const Line& op = plan.ops[i];
 			ctx.setOp(i);
@@ -462,7 +469,8 @@ struct CopyMatrix : Family {
 				std::unique_ptr<Stream::DynamicMemoryWriter> dw;
 				std::unique_ptr<Stream::FileWriter> fw;
 				Stream::Writer* w;
-				if (toFile) { fw = std::make_unique<Stream::FileWriter>("out/dest.bin"); w = fw.get(); }
+				if (reuse) w = shared.get();
+				else if (toFile) { fw = std::make_unique<Stream::FileWriter>("out/dest.bin"); w = fw.get(); }
 				else { dw = std::make_unique<Stream::DynamicMemoryWriter>(); w = dw.get(); }
 				switch (chunk) {
 				case 1: copyWith<1>(*w, *rd); break;
@@ -478,6 +486,14 @@ struct CopyMatrix : Family {
 				if (dw) { auto r2 = dw->GetReader(); got.resize(static_cast<size_t>(r2.Length())); r2.Read(got.data(), got.size()); }
 			}, &what);
 			if (o != OkOut) ctx.fail("C14.copy-exact", desc + ": copy failed: " + what);
+			if (reuse) {
+				sharedWant.insert(sharedWant.end(), S.begin() + static_cast<long>(start), S.end());
+				std::vector<uint8_t> all;
+				{ Armed arm; auto r2 = shared->GetReader(); all.resize(static_cast<size_t>(r2.Length())); r2.Read(all.data(), all.size()); }
+				if (all != sharedWant) ctx.fail("C14.copy-exact", desc + " into a writer that already received " + std::to_string(i) + " earlier copies: writer holds " + std::to_string(all.size()) + " bytes, the copies so far had to transfer " + std::to_string(sharedWant.size()));
+				got.assign(S.begin() + static_cast<long>(start), S.end());
+				ctx.count("probe.copy_into_reused_writer");
+			} else
 			if (toFile) { if (!disk::get("out/dest.bin", got)) ctx.fail("C14.copy-exact", desc + ": destination file missing after close"); }
 			size_t want = S.size() - static_cast<size_t>(start);
 			if (got.size() != want || memcmp(got.data(), S.data() + start, want) != 0) {
